@@ -13,6 +13,7 @@ from typing import Dict, List, Optional, Set, Tuple
 
 from ..boolx import BoolEval, Unknown
 from ..model import AnalysisError
+from ..pathcond import path_condition
 from ..util import dotted, flatten_boolop, norm, short, walk_no_nested
 
 VMOD = "apischema.json_schema.versions"
@@ -227,7 +228,11 @@ def analyse_converter(model, fi, unsupported_name="OPEN_API_3_0_UNSUPPORTED") ->
         # removals
         for k, call in pops_in(st):
             tests = enclosing_tests(st)
-            on_all_paths = all(same_key_presence(t, k) for t in tests) or (len(call.args) >= 2 and not tests)
+            # reach condition of the removal (else branches, guard clauses and early returns of earlier siblings included): the
+            # keyword is removed from every schema that has it only when nothing but its own presence is tested on the way
+            reach = path_condition(fn, st, parents)
+            reach_conj = [] if (isinstance(reach, ast.Constant) and reach.value is True) else flatten_boolop(reach, ast.And)
+            on_all_paths = all(same_key_presence(t, k) for t in reach_conj) and (bool(reach_conj) or len(call.args) >= 2 or not tests)
             # `if K in result and not isinstance(result[K], bool): ... result.pop(K)`: the numeric form of K is removed
             conj_ = [c_ for t in tests for c_ in flatten_boolop(t, ast.And)]
             numeric = [c_ for c_ in conj_ if norm(c_) == f"not isinstance(result['{k}'], bool)"]
